@@ -18,14 +18,16 @@ static const Mode MODES[] = {
     { 1, TLS_ECDHE_RSA_WITH_AES_256_GCM_SHA384, KK_RSA2048, 0, 0, 1, "tls12_ecdhe_ticket" }, { 1, TLS_RSA_WITH_AES_128_CBC_SHA, KK_RSA2048, 0, 1, 1, "tls12_ticket_resumed" },
     { 1, TLS_PSK_WITH_AES_128_CBC_SHA256, KK_PSK_ONLY, 0, 0, 0, "tls12_psk" }, { 1, TLS_ECDH_ECDSA_WITH_AES_128_GCM_SHA256, KK_EC256, 0, 0, 0, "tls12_ecdh" },
     { 2, TLS_AES_128_GCM_SHA256, KK_EC256, 0, 0, 0, "tls13" }, { 2, TLS_AES_256_GCM_SHA384, KK_RSA2048, KK_EC256, 0, 0, "tls13_cauth" }, { 2, TLS_CHACHA20_POLY1305_SHA256, KK_EC256, 0, 1, 1, "tls13_psk_resumed" },
+    { 2, TLS_AES_128_GCM_SHA256, KK_EC256, KK_EC256, 2, 1, "tls13_cauth_unknown_psk_offered" }, { 2, TLS_AES_128_GCM_SHA256, KK_EC256, 0, 2, 1, "tls13_unknown_psk_offered" },
     { 3, TLS_ECDHE_ECDSA_WITH_AES_128_CBC_SHA, KK_EC256, 0, 0, 0, "dtls10_ecdhe" }, { 4, TLS_RSA_WITH_AES_128_GCM_SHA256, KK_RSA2048, KK_RSA2048, 0, 0, "dtls12_rsa_cauth" }, { 4, TLS_ECDHE_RSA_WITH_AES_128_CBC_SHA256, KK_RSA2048, 0, 1, 0, "dtls12_resumed" },
 };
 static const int NMODES = sizeof MODES / sizeof MODES[0];
 
 // messages the byzantine peer may omit: (role of the byzantine node, handshake type); all are mandatory in the modes they are used in
-struct Skip { int byz_is_server; int type; const char *name; };
+struct Skip { int byz_is_server; int type; const char *name; int type2; };
 static const Skip SKIPS[] = { { 1, 11, "certificate" }, { 1, 12, "server_key_exchange" }, { 1, 254, "change_cipher_spec" }, { 1, 15, "certificate_verify" }, { 1, 8, "encrypted_extensions" },
-                              { 0, 15, "certificate_verify" }, { 0, 254, "change_cipher_spec" }, { 0, 11, "certificate" } };
+                              { 0, 15, "certificate_verify" }, { 0, 254, "change_cipher_spec" }, { 0, 11, "certificate" },
+                              { 0, 11, "certificate_and_certificate_verify", 15 }, { 1, 11, "certificate_and_certificate_verify", 15 }, { 1, 14, "server_hello_done" } };
 static const int NSKIPS = sizeof SKIPS / sizeof SKIPS[0];
 
 static Plan mk(int mode, int dv, int dir, int k, int a, uint64_t seed) {
@@ -86,6 +88,14 @@ static RunResult c06_exec(const Plan &p) {
                 ok = w.connect() && w.handshake();
                 if (ok) { Bytes x = tagged_payload(0, 1, 20); w.cli->app_send(x.data(), x.size()); w.pump(); w.cli->app_close(); w.pump(); }
                 w.close_sessions();
+                if (ok && M.resume == 2) {
+                    // the server forgets the key that minted the client's ticket: the PSK the client offers next is unknown to it (full handshake expected)
+                    unsigned char name[16], sym[32], mac[32];
+                    vsim_set_node(NODE_SERVER);
+                    ticket_key_material(7, name, sym, mac); matrixSslLoadSessionTicketKeys(w.skeys, name, sym, 32, mac, 32);
+                    ticket_key_material(1, name, sym, mac); matrixSslDeleteSessionTicketKey(w.skeys, name);
+                    vsim_set_node(NODE_HARNESS);
+                }
             }
             if (!ok) { res.harness_error = true; res.detail = std::string("first handshake failed in mode ") + M.name; }
             else {
@@ -141,7 +151,7 @@ static RunResult c06_exec(const Plan &p) {
                 if (dv == DV_SKIP) {
                     const Skip &S = SKIPS[(size_t) k % NSKIPS];
                     byz_node = S.byz_is_server ? NODE_SERVER : NODE_CLIENT; rcv_role = S.byz_is_server ? 0 : 1;
-                    vsim_hs_skip(byz_node, S.type, 1);
+                    vsim_hs_skip(byz_node, S.type, 1); if (S.type2) { vsim_hs_skip_also(S.type2, 1); }
                     what = std::string("peer_skips_msg:") + (S.byz_is_server ? "server_" : "client_") + S.name;
                 }
                 if (dv == DV_FINMUT) {
